@@ -501,8 +501,19 @@ class StreamSim(PeerSim):
     def delivered_ids(self):
         return [mid for (_, mid, _) in self.eut.delivered]
 
+    def session_dropped_by_harness(self):
+        return False
+
     def judge_c03(self):
         if not self.burst_done:
+            # the Logon exchange is part of the stream: however it was cut into reads, a well-behaved peer's Logon
+            # must have made the session ACTIVE (otherwise the run would silently judge nothing)
+            if self.stop_reason == "settled" and self.eut.connection_state != ConnectionState.ACTIVE \
+                    and not self.session_dropped_by_harness():
+                law = self.cfg["chunk_law"]
+                raise Violation("no-session", f"C03/session-not-established/law={law}/read_cap={self.cfg.get('read_cap', 0)}",
+                                f"the peer's Logon never made the endpoint ACTIVE (state {self.eut.connection_state.name}, "
+                                f"role {self.eut_role}, reads capped at {self.cfg.get('read_cap', 0) or 'no limit'} bytes)")
             return
         law = self.cfg["chunk_law"]
         ctx = f"law={law}/garbage={'Y' if self.cfg['garbage'] else 'N'}"
